@@ -73,6 +73,7 @@ pub struct WebSocketFramed<T, C, E, D> {
     buffer: BytesMut,
     is_readable: bool,
     has_errored: bool,
+    closing: bool,
 }
 
 impl<T, C, E, D> Unpin for WebSocketFramed<T, C, E, D> {}
@@ -83,7 +84,7 @@ where
     C: Encoder<E, Error = anyhow::Error> + Decoder<Item = D, Error = anyhow::Error> + Unpin,
 {
     pub fn new(stream: WebSocketStream<T>, codec: C) -> Self {
-        Self { stream, codec, encode_item: PhantomData, decode_item: PhantomData, buffer: BytesMut::new(), is_readable: false, has_errored: false }
+        Self { stream, codec, encode_item: PhantomData, decode_item: PhantomData, buffer: BytesMut::new(), is_readable: false, has_errored: false, closing: false }
     }
 }
 
@@ -149,6 +150,18 @@ where
     }
 
     fn poll_close(mut self: Pin<&mut Self>, cx: &mut Context<'_>) -> Poll<Result<(), Self::Error>> {
+        // The close frame and everything written before it must be on the wire before the close handshake waits for the
+        // peer's answer: the stream's own poll_close does not flush again while it waits, and a buffering transport below
+        // it (TLS) may still hold the last records, in which case both sides would wait for each other for ever.
+        if !self.closing {
+            ready!(self.stream.poll_ready_unpin(cx)).map_err(|e| anyhow!(e))?;
+            match self.stream.start_send_unpin(tokio_websockets::Message::close(None, "")) {
+                Ok(()) | Err(tokio_websockets::Error::AlreadyClosed) => {}
+                Err(e) => return Poll::Ready(Err(anyhow!(e))),
+            }
+            self.closing = true;
+        }
+        ready!(self.stream.poll_flush_unpin(cx)).map_err(|e| anyhow!(e))?;
         self.stream.poll_close_unpin(cx).map_err(|e| anyhow!(e))
     }
 }
